@@ -603,3 +603,4 @@ M("C11", "as-dict-comment-statement-wrong-keyword", F, _SKIP, _SKIP.replace('lin
 T("C11", "twin-type-read-under-isinstance", F, _SKIP + "                    key = \".\".join(stack)\n", "                    key = \".\".join(stack)\n",
   edits=[(F, "                            if x.type == \"STRING\":\n", "                            if isinstance(x, Token) and x.type == \"STRING\":\n")])
 T("C11", "twin-comment-statement-membership-test", F, _SKIP, _SKIP.replace('line[0] == "#"', 'line[0] in ("#",)'))
+T("C11", "twin-comment-statement-test-operands-swapped", F, _SKIP, _SKIP.replace('line[0] == "#"', '"#" == line[0]'))
